@@ -14,7 +14,7 @@ CLAIMS = {
          'FIFO container discipline and cancel routing by id parity, task invocation only on loop-role functions', '§4 C01',
          'lockset + CFG path rules over clang AST/CFG'),
  'C03': ('A7 snapshot-dispatch re-validation in both back-ends, record re-resolution per ready descriptor, A8 no throwing look-up in the dispatch '
-         'loops, no iterate-while-mutate over fd_events, one-shot-before-callback, epoll/select sibling agreement', '§4 C03',
+         'loops, no iterate-while-mutate over fd_events, one-shot-before-callback, epoll/select sibling agreement, interest-set table (counter stepped under the matching events_ bit, epoll mask / select sets requested iff counter > 0, kernel-bit to tbox-bit translation incl. HUP->read, epoll_ctl ADD/MOD/DEL by old/new mask)', '§4 C03, §10.7',
          're-entrancy/invalidation rules + exception-escape analysis over clang AST/CFG'),
  'C04': ('A6 callee allow-list of the async signal handler, chaining/fan-out shape, save/restore pairing of the disposition, signal table only under '
          'lock + blocked signals, one-shot ordering, subscriber snapshot re-validation, enable() rollback, idempotent subscription (unique-key subscriber set or enable() guard)', '§4 C04',
@@ -26,7 +26,7 @@ CLAIMS = {
          'append, filter-before-output, truncation marking agreement over sinks, back-end re-framing guards, roll-over/disable ordering, no re-logging from sinks', '§4 C09',
          'lockset + who-may-call + CFG path rules over clang AST/CFG'),
  'C10': ('A1 pairwise common-lock race freedom with producer/backend/owner roles and thread phases, whole-append critical section incl. every external '
-         'appendLockless caller, one critical section for a whole datum, FIFO hand-over and reset-after-callback, back-pressure guards, cleanup/quit-path flush order, acyclic lock order and no wait-for cycle (no role blocks on a mutex another role holds while waiting for it)', '§4 C10',
+         'appendLockless caller, one critical section for a whole datum, FIFO hand-over and reset-after-callback, back-pressure guards, cleanup/quit-path flush order, acyclic lock order and no wait-for cycle (no role blocks on a mutex another role holds while waiting for it), chunk-copy arithmetic of the pipe buffer by linear forms per reaching definition (inside block and datum, min(request, free), size_ advanced by what was copied)', '§4 C10, §10.7',
          'lockset + lock-order + CFG path rules over clang AST/CFG'),
  'C11': ('hook-balance on every path of initialize/start (own hook matched by state advance or rollback, children rolled back in reverse), gated single '
          'stop/cleanup hooks, pre-order/reverse-order iteration shape, required-only abort, Main()/Start()/Stop() sequencing', '§4 C11',
@@ -44,7 +44,7 @@ CLAIMS.update({
          'line and cursor-update shapes, no dispatch after a close-marked request, single commit per request by construction, in-order flush shape, boundary agreement of every comparison with close_index, no read-side shutdown while responses are owed (teardown chain re-derived each run), no unbounded stack allocation on the receive path', '§4 C12',
          'exception-escape analysis + reaching definitions + CFG path rules over clang AST/CFG'),
  'C13': ('A8 no exception escapes the input path (telnet, raw TCP, terminal), no access to an empty history, deferred tasks capture tokens not pooled pointers, '
-         'cursor-update guards, prompt/history-cap shape, telnet framing length tests, bounded history recursion, no unbounded stack allocation (VLA/alloca) on the input path; range/presence proofs require the container to be unchanged between proof and use', '§4 C13',
+         'cursor-update guards, prompt/history-cap shape, telnet framing length tests, bounded history recursion, no unbounded stack allocation (VLA/alloca) on the input path; range/presence proofs require the container to be unchanged between proof and use; key decoding transition table read off the scanner vs the xterm/VT220 reference encodings, key-result to handler dispatch table', '§4 C13, §10.7',
          'exception-escape analysis + ownership/deferred-capture + CFG path rules over clang AST/CFG'),
  'C14': ('A8 framing/dispatch never throw (parse only inside CatchThrow, typed json access under type tests), no narrow length sum, fetchNoCopy result proven '
          'non-null or tested, resumable-framing return discipline, complete-then-erase with sibling agreement, no container handle live across the user callback, '
